@@ -6,6 +6,7 @@ open Bxh.Proof
 
 def sigAddr (s : String) : Option String :=
   if s == "junk" || s == "short" then none
+  else if s.startsWith "m:" then some (s.drop 2).toString        -- malleated twin: recovers to the same signer
   else if s.startsWith "w:" then some ("wrong-digest-" ++ s)   -- recovers to an address nobody registered
   else some s
 
